@@ -33,7 +33,7 @@ def add(id,prop,status,oracle,what,ops=None,cfg_=None,commit=None,relax=None,als
 # ---- open findings
 add("KF1","C02","open","unexpected-failure:writefile",
     "a regular file whose last name component ends in the suffix of the active compression/encryption format ('.gz', '.zst', '.age', '.pgp', ...) is indexed under the name with that suffix stripped whenever its record carries no encoded content (empty file, metadata update): Create(\"/w.pgp\") under pgp returns not-exist and leaves an entry \"/w\"",
-    ops=[{"k":"writefile","p":"/w.pgp","d":D(0,1,"rand")}], cfg_=cfg(enc="pgp"), relax="suffixnames", also=["C12","C14","C04"])
+    ops=[{"k":"writefile","p":"/w.pgp","d":D(0,1,"rand")}], cfg_=cfg(enc="pgp"), relax="suffixnames", also=["C12","C14","C04","C05"])
 
 # ---- fixed findings (regression replays; they suppress nothing)
 add("F04","C13","fixed","orphan-entry","MkdirAll(\"/x/y/z\") created only the leaf, unreachable from the root",
